@@ -568,15 +568,15 @@ Definition is_some {A} (o : option A) := match o with Some _ => true | None => f
 Definition oeq_same (m : option bool) (o : option bool) :=
   match m, o with Some x, Some y => Bool.eqb x y | None, None => true | _, _ => false end.
 (* observed: a == b (None = raised), hash(a) defined, hash(b) defined, hash(a) == hash(b) (None = not both defined).
-   Equality of the modelled hash keys must coincide with equality of the observed hashes, except in the known-finding
-   domain (Feature-valued in_features in the CONTEXT of the child options) where either outcome is accepted. *)
+   Equal modelled hash keys must come with equal observed hashes (the converse cannot be demanded: Python's hash
+   collides on different keys, e.g. hash("") = hash(0)). *)
 Definition kf_ctx_inf (a : feat) : bool := match f_child_inf a with Some (InContext, _) => true | _ => false end.
 Definition feat_case := ((feat * feat) * (option bool * bool * bool * option bool))%type.
 Definition chk_feat (c : feat_case) : bool :=
   match c with ((a, b), (oe, ha, hb, oheq)) =>
     oeq_same (feat_eq a b) oe && Bool.eqb (is_some (feat_hkey a)) ha && Bool.eqb (is_some (feat_hkey b)) hb
     && match feat_hkey a, feat_hkey b, oheq with
-       | Some x, Some y, Some o => kf_ctx_inf a || kf_ctx_inf b || Bool.eqb (py_eq x y) o
+       | Some x, Some y, Some o => if py_eq x y then o else true   (* equal keys must give equal hashes; hash("") = hash(0) *)
        | _, _, _ => true
        end
   end.
@@ -1033,7 +1033,7 @@ Definition chk_derived (c : d_case) : bool :=
   && forallb (fun call => match call with [] => false | gc :: t => forallb (fun gc' => py_eq (VDict (fst gc)) (VDict (fst gc'))) t end) calls.
 """
 
-GVALS: List[Any] = [1, True, 2, "x", None, ["L", [1, 2]], ["T", [1, 2]], ["S", [1, 2]], ["S", [2, True]], ["D", [["k", 1]]],
+GVALS: List[Any] = [1, True, 2, "x", None, "", 0, False, -1, -2, ["L", [1, 2]], ["T", [1, 2]], ["S", [1, 2]], ["S", [2, True]], ["D", [["k", 1]]],
                     ["D", [["k", True]]], ["L", [1, ["D", [["q", ["S", [1]]]]]]]]
 
 
@@ -1084,9 +1084,8 @@ def py_agree(a: Any, b: Any) -> bool:
 
 
 def py_same_class(a: Any, b: Any) -> bool:
-    """what the implementation compares: canonical form of the group options, frameworks"""
-    from mloda.core.abstract_plugins.components.hashable_dict import _make_hashable
-    return _make_hashable(a.options.group) == _make_hashable(b.options.group) and a.compute_frameworks == b.compute_frameworks
+    """what the implementation compares: the hash of the canonical form of the group options, and the frameworks"""
+    return hash(a.options) == hash(b.options) and a.compute_frameworks == b.compute_frameworks
 
 
 def py_conflation(feats: List[Any]) -> bool:
@@ -1203,9 +1202,12 @@ def grouping_witnesses() -> dict:
     a = Feature.int64_of("f0", Options(group={"c": [1, 2]}))
     b = Feature.int64_of("f2", Options(group={"c": (1, 2)}))
     o3 = names([a, b])
+    c, d = Feature.int64_of("f3", Options(group={"c": ""})), Feature.int64_of("f4", Options(group={"c": 0}))
+    o4 = names([c, d])
     return {"untyped": {"kind": "kf_untyped", "order_t1_t2_u": o1, "order_t2_t1_u": o2, "defect_present": o1 != o2},
             "conflation": {"kind": "kf_conflation", "options_equal": bool(a.options == b.options), "groups": o3,
-                           "defect_present": (not a.options == b.options) and len(o3) == 1}}
+                           "empty_string_vs_zero_groups": o4,
+                           "defect_present": ((not a.options == b.options) and len(o3) == 1) or len(o4) == 1}}
 
 
 # ---- end to end
